@@ -414,7 +414,11 @@ func c05R5(c *Ctx, rule string) {
 		return
 	}
 	for _, f := range p.FuncsOfPkg("internal/common") {
-		if f.Signature.Recv() == nil || !strings.Contains(f.Signature.Recv().Type().String(), "WebSocketConn") || f.Synthetic != "" {
+		owner := f
+		for owner.Parent() != nil {
+			owner = owner.Parent() // closures inside a method belong to it
+		}
+		if owner.Signature.Recv() == nil || !strings.Contains(owner.Signature.Recv().Type().String(), "WebSocketConn") || owner.Synthetic != "" {
 			continue
 		}
 		allInstrs(f, func(i ssa.Instruction) {
